@@ -631,7 +631,8 @@ impl Value {
             _ => return Err(Error::ExpressionUnexpectedType(ty.clone())),
         };
         let s = hexadecimal.as_inner();
-        if s.len() % 2 != 0 || s.len() != expected_byte_len * 2 {
+        // A literal without any digit (`0x_`) denotes nothing, not even at a zero-width type
+        if s.is_empty() || s.len() % 2 != 0 || s.len() != expected_byte_len * 2 {
             return Err(Error::ExpressionUnexpectedType(ty.clone()));
         }
         let bytes = Vec::<u8>::from_hex(s).expect("valid chars and valid length");
